@@ -3,6 +3,7 @@ import ParryModel.C08.Lemmas
 import ParryModel.C08.RefitLemmas
 import ParryModel.C08.TrackedLemmas
 import ParryModel.C08.LinkLemmas
+import ParryModel.C08.TermLemmas
 /-!
 # C08 property theorems: the QBVH stays valid under any history
 
@@ -123,6 +124,49 @@ theorem step_total (fixRoot : Bool) (w : World K) (op : Op K) (h : Inv w.q) (hok
     obtain ⟨q', b, e, _⟩ := inv_remove w.q id h
     exact ⟨⟨q', w.cur⟩, by simp only [step, e, Option.map_some]⟩
   | refit m => exact absurd rfl (hop m)
+
+/-- **`refit` terminates.**  On every state satisfying `Inv` whose root carries the invalid parent index and whose free
+list is empty (`Aux`: true in every state reached by the three operations), the double work-list loop of `refit`
+finishes within the model's fuel `nodes.len() + 2` — each pass moves one level towards the root and the depth of a
+live node is smaller than the number of nodes (pigeonhole). -/
+theorem refit_terminates (q : Q K) (cur : Nat → Aabb3 K) (margin : K) (h : Inv q) (a : Aux q) :
+    ∃ r : Q K × Nat, refit q cur margin = some r :=
+  refit_total q h (a.rootInvalid h) (fun n _ _ _ => a.live n) cur margin
+
+/-- one operation never fails (no index panic, no non-termination) and preserves `Inv` and `Aux` -/
+theorem step_total_all (fixRoot : Bool) (w : World K) (op : Op K) (h : Inv w.q) (a : Aux w.q) (hok : OpOk op)
+    (hsz : w.q.nodes.size + 8 ≤ MAXN) :
+    ∃ w' : World K, step fixRoot w op = some w' ∧ Inv w'.q ∧ Aux w'.q ∧ w'.q.nodes.size ≤ w.q.nodes.size + 8 := by
+  cases op with
+  | insert id box =>
+    obtain ⟨q', e, h', hs'⟩ := inv_preUpdateOrInsert fixRoot w.q id h hok hsz
+    exact ⟨⟨q', fun d => if d = id then box else w.cur d⟩, by simp only [step, e, Option.map_some], h',
+      aux_preUpdateOrInsert fixRoot w.q q' id a h hok hsz e, hs'⟩
+  | remove id =>
+    obtain ⟨q', b, e, h', hs'⟩ := inv_remove w.q id h
+    exact ⟨⟨q', w.cur⟩, by simp only [step, e, Option.map_some], h', aux_remove w.q q' id b a e, by simp [hs']⟩
+  | refit m =>
+    obtain ⟨r, hr⟩ := refit_terminates w.q w.cur m h a
+    have e := topoEq_refit w.q w.cur m r hr
+    exact ⟨⟨r.1, w.cur⟩, by simp only [step, hr, Option.map_some], h.of_topoEq e, aux_of_topoEq a e, by simp [e.size]⟩
+
+/-- **Totality of histories: no panic, no hang, always valid.**  Every finite history of `pre_update_or_insert`,
+`remove` and `refit` calls (ids `< u32::MAX`, fewer than `2^32/8` operations) started from the empty tree runs to
+completion in the model — no index panic, `refit` always terminates — and ends in a state satisfying `Inv`. -/
+theorem history_total (fixRoot : Bool) (ops : List (Op K)) (hok : ∀ op ∈ ops, OpOk op) (hlen : 8 * ops.length ≤ MAXN) :
+    ∃ w' : World K, run fixRoot World.empty ops = some w' ∧ Inv w'.q := by
+  have key : ∀ (ops : List (Op K)) (w : World K), Inv w.q → Aux w.q → (∀ op ∈ ops, OpOk op) →
+      w.q.nodes.size + 8 * ops.length ≤ MAXN → ∃ w' : World K, run fixRoot w ops = some w' ∧ Inv w'.q := by
+    intro ops
+    induction ops with
+    | nil => intro w h _ _ _; exact ⟨w, rfl, h⟩
+    | cons op ops ih =>
+      intro w h a hok hsz
+      simp only [List.length_cons] at hsz
+      obtain ⟨w1, hs, h1, a1, hs1⟩ := step_total_all fixRoot w op h a (hok op (by simp)) (by omega)
+      obtain ⟨w', hr, h'⟩ := ih w1 h1 a1 (fun o ho => hok o (by simp [ho])) (by omega)
+      exact ⟨w', by simp only [run, hs]; exact hr, h'⟩
+  exact key ops World.empty inv_empty aux_empty hok (by simp [World.empty, Q.empty]; omega)
 
 end structural
 
@@ -330,6 +374,26 @@ theorem history_valid_after_refit (ops : List (Op K)) (m : K) (w' : World K) :
     simp [World.empty, Q.empty] at this; omega
   obtain ⟨hf, hb⟩ := step_preserves_full sq w1 w' (Op.refit m) hf1 hm hsz1 hstep
   exact ⟨hf.inv, hb m rfl⟩
+
+/-- **Headline, unconditional form**: every finite history (ids `< u32::MAX`, margins `≥ 0`, fewer than `2^32/8`
+operations) followed by a `refit`, run by the corrected model from the empty tree, **completes** (no panic, no hang) and
+ends in a state where the tree is structurally valid (`Inv`) and every stored box contains the boxes below it and the
+current box of its leaf (`BoxInv`). -/
+theorem every_history_ends_valid (ops : List (Op K)) (m : K) :
+    letI := fieldNum K sq
+    (∀ op ∈ ops, OpOkB op) → 0 ≤ m → 8 * (ops.length + 1) ≤ MAXN →
+      ∃ w' : World K, run true World.empty (ops ++ [Op.refit m]) = some w' ∧ Inv w'.q ∧ BoxInv w'.q w'.cur := by
+  letI := fieldNum K sq
+  intro hok hm hsz
+  have hokA : ∀ op ∈ ops ++ [Op.refit m], OpOk op := by
+    intro op hop
+    simp only [List.mem_append, List.mem_singleton] at hop
+    rcases hop with hop | rfl
+    · have := hok op hop
+      cases op <;> simp only [OpOk, OpOkB] at * <;> first | exact this | trivial
+    · trivial
+  obtain ⟨w', hr, _⟩ := history_total true (ops ++ [Op.refit m]) hokA (by simp; omega)
+  exact ⟨w', hr, history_valid_after_refit sq ops m w' hok hm hsz hr⟩
 
 end boxes
 
